@@ -758,7 +758,6 @@ class StoreCache(CacheMixin):
             try:
                 b, mime = t.as_bytes(state.data)
                 metadata = dict(**state.metadata)
-                metadata["mimetype"] = mime
                 self.storage.store(path, b, metadata)
                 return True
             except:
